@@ -224,34 +224,14 @@ Section Msf.
   Lemma inrange_sub es es' : (forall e, In e es' -> In e es) -> inrange n es -> inrange n es'.
   Proof. intros H R e He. apply R. auto. Qed.
 
-  Variable T : list edge.
-  Hypothesis Hck : check_msf g T = true.
-
-  Lemma msf_parts :
-    (forall e, In e T -> gedge g e /\ e_a e < n /\ e_b e < n) /\
-    sf [] T /\
-    (forall e, In e (all_edges g) -> uconn (tle (e_w e) T) (e_a e) (e_b e)).
-  Proof.
-    pose proof Hck as K. unfold check_msf in K. fold n in K.
-    apply andb_prop in K. destruct K as [K K3]. apply andb_prop in K. destruct K as [K1 K2].
-    rewrite forallb_forall in K1, K3.
-    assert (P1 : forall e, In e T -> gedge g e /\ e_a e < n /\ e_b e < n).
-    { intros e He. specialize (K1 e He). apply andb_prop in K1. destruct K1 as [A B].
-      destruct (edge_in_true g e A) as [A1 A2]. split; auto. split; auto. now apply Nat.ltb_lt. }
-    assert (RT : inrange n T) by (intros e He; destruct (P1 e He) as [_ [A B]]; auto).
-    split; auto. split.
-    - eapply forest_from_sf; eauto. apply LI_init.
-    - intros e He. specialize (K3 e He). apply Nat.eqb_eq in K3.
-      destruct (all_edges_range e He) as [Ha Hb].
-      assert (RF : inrange n (tle (e_w e) T)) by (eapply inrange_sub; [apply tle_incl|auto]).
-      apply (li_iff _ _ _ (labels_LI n _ RF)). rewrite !labf_in; auto.
-  Qed.
-
-  Theorem check_msf_sound_sec :
+  Theorem msf_of_parts T :
+    (forall e, In e T -> gedge g e /\ e_a e < n /\ e_b e < n) ->
+    sf [] T ->
+    (forall e, In e (all_edges g) -> uconn (tle (e_w e) T) (e_a e) (e_b e)) ->
     spanning_forest g T /\
     forall T', spanning_forest g T' -> (weight_of T <= weight_of T')%Z.
   Proof.
-    destruct msf_parts as [P1 [P2 P3]].
+    intros P1 P2 P3.
     assert (RT : inrange n T) by (intros e He; destruct (P1 e He) as [_ [A B]]; auto).
     assert (TG : forall u v, uconn T u v -> uconn (all_edges g) u v).
     { intros u v. apply uconn_incl. intros e He. apply gedge_all. apply P1. auto. }
@@ -289,6 +269,34 @@ Section Msf.
       assert (Hg : In e (all_edges g)) by (apply gedge_all; apply Q1; auto).
       eapply uconn_incl; [|apply (P3 e Hg)]. intros x Hx. eapply tle_mono; eauto.
   Qed.
+
+  Variable T : list edge.
+  Hypothesis Hck : check_msf g T = true.
+
+  Lemma msf_parts :
+    (forall e, In e T -> gedge g e /\ e_a e < n /\ e_b e < n) /\
+    sf [] T /\
+    (forall e, In e (all_edges g) -> uconn (tle (e_w e) T) (e_a e) (e_b e)).
+  Proof.
+    pose proof Hck as K. unfold check_msf in K. fold n in K.
+    apply andb_prop in K. destruct K as [K K3]. apply andb_prop in K. destruct K as [K1 K2].
+    rewrite forallb_forall in K1, K3.
+    assert (P1 : forall e, In e T -> gedge g e /\ e_a e < n /\ e_b e < n).
+    { intros e He. specialize (K1 e He). apply andb_prop in K1. destruct K1 as [A B].
+      destruct (edge_in_true g e A) as [A1 A2]. split; auto. split; auto. now apply Nat.ltb_lt. }
+    assert (RT : inrange n T) by (intros e He; destruct (P1 e He) as [_ [A B]]; auto).
+    split; auto. split.
+    - eapply forest_from_sf; eauto. apply LI_init.
+    - intros e He. specialize (K3 e He). apply Nat.eqb_eq in K3.
+      destruct (all_edges_range e He) as [Ha Hb].
+      assert (RF : inrange n (tle (e_w e) T)) by (eapply inrange_sub; [apply tle_incl|auto]).
+      apply (li_iff _ _ _ (labels_LI n _ RF)). rewrite !labf_in; auto.
+  Qed.
+
+  Theorem check_msf_sound_sec :
+    spanning_forest g T /\
+    forall T', spanning_forest g T' -> (weight_of T <= weight_of T')%Z.
+  Proof. destruct msf_parts as [P1 [P2 P3]]. now apply msf_of_parts. Qed.
 End Msf.
 
 Theorem check_msf_sound n es T :
